@@ -288,11 +288,11 @@ Definition on_pixel (r : role) (acc green red : N) : res N :=
 (* `while pixel_idx < len.get()`.  One iteration = BitBufRun.entropy_iteration: the announcement
    `if reader.buf_bits() < readahead_bits { reader.fill_buf()? }` changes nothing for the ideal source. *)
 Fixpoint pixel_loop (fuel : nat) (r : role) (g : group) (cache_len width len idx acc : N) : M N :=
-  match fuel with
-  | O => mfuel
-  | S f =>
-    if negb (idx <? len) then mret acc
-    else
+  if negb (idx <? len) then mret acc
+  else
+    match fuel with
+    | O => mfuel
+    | S f =>
       sym <~ rd_huff (g_green g) ;;
       if sym <=? 255 then
         red <~ rd_huff (g_red g) ;;
@@ -312,7 +312,7 @@ Fixpoint pixel_loop (fuel : nat) (r : role) (g : group) (cache_len width len idx
         else
           let idx' := if green_readahead g =? 0 then len else idx + 1 in
           pixel_loop f r g cache_len width len idx' acc
-  end.
+    end.
 
 (* EntropyCodedImage::read(reader, width, height, fun); returns the closure's accumulator (max_code_group for RMeta) *)
 Definition read_entropy_image (r : role) (width height : N) : M N :=
